@@ -393,12 +393,19 @@ def binops_in(body, bb):
     return out
 
 
-def root_local(body, op, through_casts=True):
-    """The local an operand copies (through `_a = copy _b` chains and integer casts); None for constants."""
+def root_local(body, op, through_casts=True, fields=False):
+    """The local an operand copies (through `_a = copy _b` chains and integer casts); None for constants.
+    fields=True: a copy of a struct field (possibly through `&mut self` of an inlined helper) is identified by the
+    canonical place ("place", local, (field names..)) instead of by the temporary that holds the copy."""
     pl = place_of(op)
     if pl is None:
         return None
     l = pl["l"]
+    if fields and pl["p"] and all(e == "deref" or (isinstance(e, dict) and "f" in e and "adt" in e) for e in pl["p"]):
+        from .cfgutil import canon_place
+        cl, cf = canon_place(body, pl)
+        if cf:
+            return ("place", cl, cf)
     if pl["p"]:
         # tuple field of a checked-arithmetic result: (_x.0) - keep the tuple local
         return ("proj", l, tuple(str(e) if not isinstance(e, dict) else e.get("f", e.get("dc")) for e in pl["p"]))
@@ -412,6 +419,11 @@ def root_local(body, op, through_casts=True):
             if p2 is None:
                 return l
             if p2["p"]:
+                if fields and all(e == "deref" or (isinstance(e, dict) and "f" in e and "adt" in e) for e in p2["p"]):
+                    from .cfgutil import canon_place
+                    cl, cf = canon_place(body, p2)
+                    if cf:
+                        return ("place", cl, cf)
                 return l
             l = p2["l"]
             continue
